@@ -101,6 +101,18 @@ def patterns(tier):
                 continue
             name = "array%dx%d%s" % (h, w, "".join("," + k + ("" if v is True else "*") for k, v in sorted(opts.items())))
             out.append((name, (lambda h=h, w=w, opts=opts: ArrayBuilder2D(h, w, [0, 1, 2], default=0, **opts)), {"kind": "array", "h": h, "w": w, "opts": opts}))
+    def fresh_board(h, w, make):
+        return [[make() for _ in range(w)] for _ in range(h)]
+
+    for opts in ({"symmetry": True}, {"symmetry": True, "disallow_adjacent": True}, {}):
+        tag = "".join("," + k for k in sorted(opts))
+        # values outside the small-int cache; the default object and the cells of the initial board are distinct objects
+        out.append(("array2x3-bigints" + tag, (lambda opts=opts: ArrayBuilder2D(2, 3, [int("999"), int("1000"), int("1001")], default=int("999"),
+                                                                         initial=fresh_board(2, 3, lambda: int("999")), **opts)),
+                    {"kind": "array", "h": 2, "w": 3, "opts": opts, "default": 999, "alphabet": [999, 1000, 1001]}))
+        out.append(("array1x3-strings" + tag, (lambda opts=opts: ArrayBuilder2D(1, 3, ["".join([".", "."]), "".join(["^", "1"]), "".join(["v", "2"])], default="".join([".", "."]),
+                                                                         initial=fresh_board(1, 3, lambda: "".join([".", "."])), **opts)),
+                    {"kind": "array", "h": 1, "w": 3, "opts": opts, "default": "..", "alphabet": ["..", "^1", "v2"]}))
     out.append(("array2x2-in-tuple", lambda: (ArrayBuilder2D(2, 2, [0, 1], default=0), Choice([3, 4], 3)), {"kind": "tuple-array"}))
     for (h, w) in ((2, 2), (2, 3)):
         out.append(("segmentation%dx%d" % (h, w), (lambda h=h, w=w: (SegmentationBuilder2D(h, w, min_block_size=1, max_block_size=3), [Choice([-1, 0, 1], -1) for _ in range(h)])),
@@ -176,38 +188,40 @@ def freeze_seg(blocks):
     return tuple(sorted(tuple(sorted(map(tuple, b))) for b in blocks))
 
 
-def symmetric(grid, h, w):
-    return all((grid[y][x] != 0) == (grid[h - 1 - y][w - 1 - x] != 0) for y in range(h) for x in range(w))
+def symmetric(grid, h, w, default=0):
+    return all((grid[y][x] != default) == (grid[h - 1 - y][w - 1 - x] != default) for y in range(h) for x in range(w))
 
 
-def adjacent_pairs(grid, h, w, offsets):
+def adjacent_pairs(grid, h, w, offsets, default=0):
     n = 0
     for y in range(h):
         for x in range(w):
-            if grid[y][x] == 0:
+            if grid[y][x] == default:
                 continue
             for dy, dx in offsets:
                 y2, x2 = y + dy, x + dx
-                if 0 <= y2 < h and 0 <= x2 < w and grid[y2][x2] != 0:
+                if 0 <= y2 < h and 0 <= x2 < w and grid[y2][x2] != default:
                     n += 1
     return n
 
 
 def check_array(meta, cur, nxt, alphabet):
     h, w, opts = meta["h"], meta["w"], meta["opts"]
+    default = meta.get("default", 0)
+    alphabet = meta.get("alphabet", alphabet)
     if not (isinstance(nxt, list) and len(nxt) == h and all(isinstance(r, list) and len(r) == w for r in nxt)):
         return "array-shape-changed"
     if any(v not in alphabet for r in nxt for v in r):
         return "foreign-value"
     diff = [(y, x) for y in range(h) for x in range(w) if cur[y][x] != nxt[y][x]]
-    if opts.get("symmetry") and symmetric(cur, h, w) and not symmetric(nxt, h, w):
+    if opts.get("symmetry") and symmetric(cur, h, w, default) and not symmetric(nxt, h, w, default):
         return "point-symmetry-lost"
     da = opts.get("disallow_adjacent")
     if da and not opts.get("use_move"):
         offsets = [(-1, 0), (1, 0), (0, -1), (0, 1)] if da is True else da
         # a value-setting update must not create a new adjacent pair of non-default cells
-        sets_value = any(nxt[y][x] != 0 and cur[y][x] == 0 for (y, x) in diff)
-        if sets_value and adjacent_pairs(nxt, h, w, offsets) > adjacent_pairs(cur, h, w, offsets):
+        sets_value = any(nxt[y][x] != default and cur[y][x] == default for (y, x) in diff)
+        if sets_value and adjacent_pairs(nxt, h, w, offsets, default) > adjacent_pairs(cur, h, w, offsets, default):
             return "adjacent-non-default-cells-created"
     return None
 
@@ -425,7 +439,9 @@ def run_prng(part, D):
         for wdt in range(1, D + 1):
             b = a + wdt - 1
             case = {"prng": "randint", "a": a, "b": b, "D": D}
-            dist, cut, err, nexec = dist_of(lambda: srandom.randint(a, b), D, 2)
+            rejecting = D % wdt != 0
+            depth = 7 if (rejecting and D % wdt <= 2 and D <= 16) else 2  # <= 2 rejected raw values: the redraw tree stays small
+            dist, cut, err, nexec = dist_of(lambda: srandom.randint(a, b), D, depth)
             part.count("transitions", nexec)
             if err is not None:
                 part.violation("randint:raises-" + type(err).__name__, case, {"exception": repr(err)[:200]})
@@ -641,7 +657,7 @@ def worker(shard, part):
 def main(tier, seed, only=None):
     shards = []
     for name, mk, meta in patterns(tier):
-        D = 6 if ("3x3" in name or "segmentation" in name or (tier == "quick" and "2x3" in name)) else 12
+        D = 6 if ("3x3" in name or "segmentation" in name or "bigints" in name or (tier == "quick" and "2x3" in name)) else 12
         shards.append(("neighbors", tier, name, D, 900 if tier == "quick" else 25000))
     for name in ("choice-pair", "array1x2", "array1x2,symmetry"):
         for steps in (1, 2) if tier == "quick" else (1, 2, 3):
